@@ -3,33 +3,9 @@
    real library (extracted to OCaml), and what the history theorems quantify over. *)
 From Coq Require Import List NArith Bool Arith.
 From Coq Require Import Strings.Byte.
-Require Import BS.Bytes BS.Common BS.FS BS.Meta BS.Header BS.Reader BS.Index BS.Data BS.Seek BS.Series.
+Require Import BS.Bytes BS.Common BS.Api BS.FS BS.Meta BS.Header BS.Reader BS.Index BS.Data BS.Seek BS.Series.
 Import ListNotations.
 Close Scope N_scope. Open Scope nat_scope.
-
-Inductive op :=
-| ONew (name:fname) (p:N) (hdr:list byte) (caches:list N) (cb:cbmode)
-| OOpen (name:fname) (p:option N) (hdr:hdropt) (caches:list N) (cb:cbmode)
-| OClose
-| OPush (ts:N) (pay:list byte)
-| OReadAll (lo hi:bound)
-| OReadFirstN (n:N) (lo hi:bound)
-| OReadN (n:N) (lo hi:bound)
-| ONLines (lo hi:bound)
-| OLastLine | OLen | OIsEmpty | ORange | OPayloadSize
-| OFsTrunc (f:fname) (n:N) | OFsRm (f:fname) | OFsWrite (f:fname) (b:list byte) | OFsAppend (f:fname) (b:list byte).
-
-Inductive out :=
-| RUnit
-| ROpened (p:N) (hdr:list byte)
-| RLines (l:list line)
-| RNum (n:N)
-| RLine (x:line)
-| RBool (b:bool)
-| RRange (r:option (N * N))
-| RErr (e:err)
-| ROPanic
-| ROHang.                       (* OutOfFuel: the modelled loop does not terminate within its bound *)
 
 Record world := { w_fs : fsys; w_h : option series }.
 Definition init_world : world := {| w_fs := []; w_h := None |}.
